@@ -18,7 +18,7 @@ def read_int(txt: str) -> int:
     else:
         if not s.isdigit():
             raise ValueError(f"not an integer literal: {txt!r}")
-        v = int(s, 10)
+        v = int(s.lstrip("0") or "0", 10)
     return -v if neg else v
 
 
